@@ -162,7 +162,7 @@ func TestC09Parallel(t *testing.T) {
 		go func() { wwg.Wait(); close(finished) }()
 		select {
 		case <-finished:
-		case <-time.After(60 * time.Second):
+		case <-after(60 * time.Second):
 			rmu.Lock()
 			msg := crash
 			rmu.Unlock()
